@@ -273,11 +273,38 @@ func (h *harness) tieWalk(env *pairEnv, spec *Spec, F []string, q *query, real o
 	}
 }
 
+func implements(t *TypeSpec, iface string) bool {
+	for _, i := range t.Ifaces {
+		if i == iface {
+			return true
+		}
+	}
+	return false
+}
+
+// modelRC2 asks the driver for the model's answer to every overlapping-claim line the real side observed.
+func (h *harness) modelRC2(F []string, real []string) []string {
+	var out []string
+	for _, l := range real {
+		f := strings.Fields(l)
+		if len(f) < 3 || f[0] != "rc2" {
+			continue
+		}
+		claim := strings.Split(strings.TrimSuffix(f[2], ":"), "+")
+		rep := h.ask("(resolve " + featSexp(F) + " " + hx.A(f[1]).String() + " " + strs(claim).String() + ")")
+		if rep == "bad-op" {
+			return nil // a driver without the operation: the lines are dropped on both sides by the caller
+		}
+		out = append(out, fmt.Sprintf("rc2 %s %s %s", f[1], f[2], rep))
+	}
+	return out
+}
+
 // realResolveCandidates observes the executor's type resolution: for every abstract type A that a
 // visible, argument-free-callable Query field returns, and every object type O of the original
 // schema, the application is forced to return an object of type O; A resolves it iff the response
 // carries __typename O.
-func realResolveCandidates(b *built, w *world, features []string, orig *Spec, view *Spec, plainSpec *Spec) []string {
+func realResolveCandidates(b *built, w *world, reqF map[string]bool, features []string, orig *Spec, view *Spec, plainSpec *Spec) []string {
 	var lines []string
 	F := fset(features)
 	q := view.find(view.Query)
@@ -315,6 +342,33 @@ func realResolveCandidates(b *built, w *world, features []string, orig *Spec, vi
 				continue
 			}
 			lines = append(lines, fmt.Sprintf("rc %s %s: %v", a.Name, o.Name, ok))
+		}
+		// overlapping IsTypeOf: a value claimed by one implementation the request cannot see and by one
+		// object type it can (exactly one visible claimant, so the answer does not depend on the order in
+		// which the library happens to have registered the implementations)
+		if a.Kind == "interface" {
+			for _, g := range orig.Types {
+				if g.Kind != "object" || subset(g.Req, reqF) || !implements(&g, a.Name) {
+					continue
+				}
+				for _, u := range plainSpec.Types {
+					if u.Kind != "object" || u.Builtin != "" || !subset(u.Req, reqF) {
+						continue
+					}
+					w.force, w.forceAlso = u.Name, []string{g.Name}
+					out := runQuery(b, w, features, &query{Kind: "doc", Text: fmt.Sprintf("{ r: %s { __typename } }", f.Name)})
+					w.force, w.forceAlso = "", nil
+					res := "-"
+					if strings.Contains(out.Resp, fmt.Sprintf(`"__typename":%q`, u.Name)) {
+						res = u.Name
+					} else if strings.Contains(out.Resp, fmt.Sprintf(`"__typename":%q`, g.Name)) {
+						res = g.Name
+					} else if !strings.Contains(out.Resp, "Unable to determine object type.") {
+						res = "unexpected " + clip(out.Resp)
+					}
+					lines = append(lines, fmt.Sprintf("rc2 %s %s+%s: %s", a.Name, g.Name, u.Name, res))
+				}
+			}
 		}
 	}
 	return lines
